@@ -79,3 +79,8 @@ mod tests {
         assert_eq!(parsed.header.body_format, BodyFormat::Json as u16);
     }
 }
+
+#[cfg(kani)]
+mod verif_kani {
+    include!(concat!(env!("REPE_VERIF_KANI"), "/async_io.rs"));
+}
